@@ -168,7 +168,7 @@ def end_to_end(c, tier):
     to the declared length, allocatable results of the exact length), with and without F_CFI."""
     import concurrent.futures as cf
     from rt import libgen, fgen, cases as K
-    STR = {"cstr_in", "str_cref", "str_ref_inout", "str_ref_out"}
+    STR = {"cstr_in", "tdstr_in", "str_cref", "str_ref_inout", "str_ref_out"}
 
     def stringy(x):
         return x["result"] in ("cstr", "str_cref") or any(p["kind"] in STR for p in x["params"])
